@@ -55,7 +55,8 @@ class Ctx:
         self.pid = pid
         self.tier = tier
         self.seed = seed
-        self.rng = random.Random(seed * 1000003 + sum(map(ord, pid)))
+        self.attempt = int(os.environ.get("VERIF_ATTEMPT", "0") or 0)
+        self.rng = random.Random(seed * 1000003 + sum(map(ord, pid)) + 7919 * self.attempt)
         self.t0 = time.time()
         self.coverage: dict = {}
         self.assumptions: list[str] = []
@@ -321,6 +322,8 @@ def finish(ctx: Ctx, search=None) -> int:
     cov.setdefault("samples", [])
     cov["broken"] = [{k: b[k] for k in ("kind", "name", "detail") if k in b} for b in ctx.broken]
     cov["known_findings_reported"] = ctx.known_hits
+    if ctx.attempt:
+        ctx.notes.append(f"{ctx.attempt} earlier attempt(s) of this run were killed inside a C library (GLPK abort); this one uses another case stream")
     if ctx.notes:
         cov["notes"] = ctx.notes
     ev = {
